@@ -10,9 +10,13 @@ package c07
 // the filter, the close event; plus the frames the decoder returned and what is left in the read buffer.
 
 import (
+	"bufio"
 	"context"
 	"fmt"
 	"net"
+	"os"
+	"path/filepath"
+	"sort"
 	"strconv"
 	"strings"
 	"sync"
@@ -383,8 +387,59 @@ func rlScripts(c *hx.Ctx, n int) []*rlScript {
 	return out
 }
 
+// rlCorpus: corpus/C07/*.txt, lines `C07 rl <proto> <stream> <lens> <dflt> <script>` (minimised past failures), run first.
+func rlCorpus() []*rlScript {
+	wd, _ := os.Getwd()
+	var files []string
+	for _, d := range []string{filepath.Join(wd, "..", "..", "corpus", "C07"), filepath.Join(wd, "corpus", "C07")} {
+		m, _ := filepath.Glob(filepath.Join(d, "*.txt"))
+		files = append(files, m...)
+	}
+	sort.Strings(files)
+	var out []*rlScript
+	for _, fn := range files {
+		fh, err := os.Open(fn)
+		if err != nil {
+			continue
+		}
+		sc := bufio.NewScanner(fh)
+		sc.Buffer(make([]byte, 1<<20), 1<<24)
+		for sc.Scan() {
+			t := strings.Fields(sc.Text())
+			if len(t) < 7 || t[0] != "C07" || t[1] != "rl" {
+				continue
+			}
+			s := &rlScript{proto: t[2], stream: hx.Unhex(t[3]), how: "corpus"}
+			for _, l := range strings.Split(t[4], ",") {
+				n, _ := strconv.Atoi(l)
+				s.lens = append(s.lens, n)
+			}
+			s.dflt, _ = strconv.Atoi(t[5])
+			total := 0
+			for _, o := range strings.Split(t[6], ",") {
+				n, err := strconv.Atoi(o[1:])
+				if err != nil || n <= 0 {
+					panic("corpus: bad rl script " + t[6])
+				}
+				if o[0] == 'w' {
+					s.ops = append(s.ops, rlOp{write: n})
+					total += n
+				} else {
+					s.ops = append(s.ops, rlOp{pause: n})
+				}
+			}
+			if total != len(s.stream) {
+				panic("corpus: rl script does not cover the stream")
+			}
+			out = append(out, s)
+		}
+		fh.Close()
+	}
+	return out
+}
+
 func rlCases(c *hx.Ctx) {
-	scripts := rlScripts(c, c.N(140, 700))
+	scripts := append(rlCorpus(), rlScripts(c, c.N(140, 700))...)
 	saved := types.DefaultConnReadTimeout
 	types.DefaultConnReadTimeout = rlTimeout
 	results := make([]rlResult, len(scripts))
